@@ -150,7 +150,7 @@ def effectTable : List FnRow := [
   ⟨[], [107, 109, 132, 133, 143]⟩,  -- 136 astral.sun.twilight
   ⟨[], [122]⟩,  -- 137 astral.sun.var_y
   ⟨[], [94, 139]⟩,  -- 138 astral.sun.zenith
-  ⟨[], [31, 95, 112, 126]⟩,  -- 139 astral.sun.zenith_and_azimuth
+  ⟨[], [26, 31, 95, 112, 126]⟩,  -- 139 astral.sun.zenith_and_azimuth
   ⟨[], []⟩,  -- 140 astral.table4.<module>
   ⟨[], []⟩,  -- 141 astral.time_to_hours
   ⟨[], [141]⟩,  -- 142 astral.time_to_seconds
